@@ -516,6 +516,168 @@ def check_json_find(ctx):
 
 
 # ----------------------------------------------------------------------------------------------
+# C17: valid objects of large magnitude - deep nesting, very many members / elements, very long tokens
+
+DEEP_DEPTHS = [62, 63, 64, 65, 66, 100, 127, 128, 129, 255, 256, 257, 1000]
+DEEP_DEPTHS_THOROUGH = [2000, 4096, 5000]       # the ASan build needs well under 8 MiB of stack for 20000 levels (check_json_depth)
+
+
+def deep_value(kind, d, leaf):
+    """A value whose containers nest exactly d levels: arrays, objects, or alternating; no blanks."""
+    v = leaf
+    for lvl in range(d):
+        arr = kind == "arrays" or (kind == "mixed" and lvl % 2 == 0) or (kind == "mixed2" and lvl % 3 != 0)
+        if arr:
+            v = ("A", b"", [(b"", v, b"")])
+        else:
+            v = ("O", b"", [(b"", [("R", 0x61)], b"", b"", v, b"")])
+    return v
+
+
+def gen_deep(ctx):
+    """-> [(lead, obj, trail, key)]: a deep value BEFORE the wanted member, AFTER it, AS its value, inside a
+    member's object next to an inner member of the same name, and with the key absent."""
+    r = ctx.rng
+    g = DocGen(r, True)
+    out = []
+
+    def name(b):
+        return [("R", c) for c in b]
+
+    def mem(nm, v):
+        return (g.ws(0.2), name(nm), g.ws(0.2), g.ws(0.2), v, g.ws(0.2))
+    depths = DEEP_DEPTHS + ([] if ctx.quick else DEEP_DEPTHS_THOROUGH)
+    for d in depths:
+        for kind in ("arrays", "objects", "mixed", "mixed2"):
+            leaf = r.choice([("N", b"1"), ("A", b"", []), ("O", b"", []), ("S", name(b"want")), ("L", "Z")])
+            dv = deep_value(kind, d, leaf)
+            one = ("N", b"1")
+            shapes = [
+                (("O", b"", [mem(b"a", dv), mem(b"want", one)]), b"want"),                       # before the key
+                (("O", b"", [mem(b"want", one), mem(b"a", dv)]), b"want"),                       # after the key
+                (("O", b"", [mem(b"x", one), mem(b"want", dv), mem(b"z", one)]), b"want"),       # the key's own value
+                (("O", b"", [mem(b"x", one), mem(b"want", dv), mem(b"z", one)]), b"z"),
+                (("O", b"", [mem(b"a", dv)]), b"want"),                                          # absent
+                (("O", b"", [mem(b"a", ("O", b"", [mem(b"b", dv), mem(b"want", ("N", b"2"))])),
+                             mem(b"b", ("A", b"", [(b"", one, b""), (b" ", dv, b"")])), mem(b"want", one)]), b"want"),
+            ]
+            if d > 300:
+                shapes = [shapes[0], shapes[r.randrange(1, len(shapes))]]
+            for obj, key in shapes:
+                out.append((g.ws(0.2), obj, r.choice([b"", b"", b" ", b"\n"]), key))
+            ctx.count("json.large.deep.%s" % kind, len(shapes))
+    # laid-out chains (blanks, siblings before the deep element) around the same depths
+    for d in [60, 63, 64, 65, 70, 100] + ([] if ctx.quick else [128, 200, 256, 300]):
+        for _ in range(ctx.n(2, 6)):
+            dv = g.chain(d)
+            out.append((b"", ("O", g.ws(), [mem(b"p", dv), mem(b"want", ("L", "T")), mem(b"q", g.chain(d + 1))]), b"", b"want"))
+            ctx.count("json.large.deep.laid_out")
+    return out
+
+
+def gen_wide(ctx):
+    """-> [(description, text, key, expected offset)] documents with very many members / elements and very
+    long strings, numbers, names and keys; built as bytes, offsets by direct bookkeeping."""
+    r = ctx.rng
+    nmem = ctx.n(3000, 100000)
+    nlong = ctx.n(30000, 1000000)
+    out = []
+
+    def doc(members, key, desc):
+        """members: [(name bytes without quotes (no escapes), value bytes)]"""
+        parts, off, found = [], 1, None
+        for i, (nm, val) in enumerate(members):
+            head = b'"' + nm + b'":'
+            if found is None and nm == key:
+                found = off + len(head)
+            parts.append(head + val)
+            off += len(head) + len(val) + 1
+        text = b"{" + b",".join(parts) + b"}"
+        out.append((desc, text, key, found if found is not None else len(text)))
+        ctx.count("json.large.wide")
+    many = [(b"k%d" % i, r.choice([b"0", b"true", b'"s"', b"[1,2]", b'{"want":0}', b"null", b"-1.5e3"])) for i in range(nmem)]
+    doc(many + [(b"want", b"1")], b"want", "%d members before the key" % nmem)
+    doc(many, b"want", "%d members, key absent" % nmem)
+    doc(many, b"k%d" % (nmem - 1), "%d members, key is the last" % nmem)
+    doc([(b"a", b"[" + b",".join(b"%d" % (i % 10) for i in range(nmem)) + b"]"), (b"want", b"1")], b"want",
+        "array of %d elements before the key" % nmem)
+    doc([(b"a", b"{" + b",".join(b'"want":%d' % (i % 10) for i in range(nmem)) + b"}"), (b"want", b"1")], b"want",
+        "object of %d members (all named like the key) before the key" % nmem)
+    doc([(b"a", b"[" + b",".join(b'["want",{"want":[]}]' for i in range(nmem // 4)) + b"]"), (b"want", b"1")], b"want",
+        "array of %d small containers before the key" % (nmem // 4))
+    body = bytes(r.choice(b"abcxyz ,:{}[]0189\xc3\xa9") for _ in range(1000))
+    longs = (body * (nlong // 1000 + 1))[:nlong]
+    esc = b"".join(r.choice([b'\\"', b"\\\\", b"\\n", b"x", b"want", b'\\"want\\":1,']) for _ in range(nlong // 4))
+    for n in sorted({65535, 65536, 65537, nlong} if not ctx.quick else {nlong}):
+        doc([(b"a", b'"' + longs[:n] + b'"'), (b"want", b"1")], b"want", "string of %d bytes before the key" % n)
+    doc([(b"a", b'"' + esc + b'"'), (b"want", b"1")], b"want", "string of %d bytes full of escapes before the key" % len(esc))
+    doc([(b"a", b"-" + b"1234567890" * (nlong // 10) + b".5e+10"), (b"want", b"1")], b"want", "number of %d digits before the key" % nlong)
+    nm = longs.replace(b'"', b"q").replace(b"\\", b"b")
+    doc([(nm, b"0"), (b"want", b"1")], b"want", "name of %d bytes before the key" % nlong)
+    doc([(nm[:-1], b"0"), (nm, b"1"), (b"want", b"2")], nm, "key of %d bytes, preceded by a name one byte shorter" % nlong)
+    doc([(b"want", b'"' + longs + b'"'), (b"z", b"1")], b"z", "the member before the key has a %d-byte string value" % nlong)
+    return out
+
+
+def check_json_find_large(ctx):
+    """json_find on valid objects of large magnitude.  The extracted model and the spec evaluator are list
+    programs (quadratic in the document size), so: documents up to MODEL_MAX bytes go through model and
+    spec, up to SPEC_MAX bytes through the spec evaluator, all of them are compared with the generator's
+    own bookkeeping of the documented answer (expected_offset / the offsets counted while the bytes were
+    put together) - a python-side oracle of exactly "the start of the value of the first member named key,
+    else the end"."""
+    import sys
+    sub = "json.find-large"
+    exe, mexe = _build(ctx, sub)
+    if not exe:
+        return
+    MODEL_MAX, SPEC_MAX = ctx.n(2600, 8000), ctx.n(9000, 20000)
+    old = sys.getrecursionlimit()
+    sys.setrecursionlimit(max(old, 60000))
+    try:
+        cases, want, mcase, scase = [], [], [], []
+        for lead, obj, trail, key in gen_deep(ctx):
+            text = lead + render(obj) + trail
+            c = "find %s %s" % (hx(text), hx(key))
+            cases.append(c)
+            want.append("ok %d" % expected_offset(lead, obj, trail, key))
+            mcase.append(c if len(text) <= MODEL_MAX else None)
+            scase.append("spec %s %s" % (c, doc_token(lead, obj, trail)) if len(text) <= SPEC_MAX else None)
+    finally:
+        sys.setrecursionlimit(old)
+    ndeep = len(cases)
+    for desc, text, key, off in gen_wide(ctx):
+        cases.append("find %s %s" % (hx(text), hx(key)))
+        want.append("ok %d" % off)
+        mcase.append(None)
+        scase.append(None)
+    impl = _run_impl(ctx, sub, exe, cases)
+    mi = [i for i, c in enumerate(mcase) if c is not None]
+    si = [i for i, c in enumerate(scase) if c is not None]
+    mout, _ = vlib.run_sharded(mexe, [mcase[i] for i in mi])
+    sout, _ = vlib.run_sharded(mexe, [scase[i] for i in si])
+    model, spec = list(want), list(want)
+    for i, o in zip(mi, mout):
+        model[i] = o
+    for i, o in zip(si, sout):
+        if o != want[i]:
+            ctx.fail(sub, "tie", cases[i][:300], "find_spec says %s, generator bookkeeping says %s" % (o, want[i]))
+        spec[i] = o
+    ctx.count(sub + ".through_model", len(mi))
+    ctx.count(sub + ".through_spec_evaluator", len(si))
+    ctx.count(sub + ".bookkeeping_only", len(cases) - len(set(mi) | set(si)))
+    cases, impl, model, spec = _drop_not_run(cases, impl, model, spec)
+    vlib.tri_compare(ctx, sub, cases, impl, model, spec)
+    ctx.record(sub, cases, set(zip((c[:64] + str(len(c)) for c in cases), impl)),
+               "valid objects in which a member before / after / equal to the wanted one has a value nested 62..1000 "
+               "(thorough: ..5000) levels deep (arrays, objects, mixed; compact and laid out), %d deep documents; objects, "
+               "arrays with up to 1e5 members / elements and strings, numbers, names, keys of up to 1e6 bytes (quick tier: "
+               "3000 / 30000): C json_find = generator bookkeeping; = extracted model for documents up to %d bytes, = Coq "
+               "find_spec up to %d bytes" % (ndeep, MODEL_MAX, SPEC_MAX),
+               samples=[cases[0][:200]])
+
+
+# ----------------------------------------------------------------------------------------------
 # C15: arbitrary bytes
 
 TAILS = [b"\\", b"\\u12", b"\\u", b"\\u123", b",", b":", b'"', b'"\\', b"[", b"{", b',"', b', ', b": ", b"\x00", b"nul", b"tru", b"fals",
@@ -698,4 +860,4 @@ def check_json_depth(ctx):
                      "on the -O2 build in a child with RLIMIT_STACK = 8 MiB")
 
 
-SUBCHECKS = {"C15": [check_json_safety, check_json_depth], "C17": [check_json_find]}
+SUBCHECKS = {"C15": [check_json_safety, check_json_depth], "C17": [check_json_find, check_json_find_large]}
